@@ -116,6 +116,9 @@ def run_mutate(world, ext, data, output, backup, list_name, script, explicit_sin
             fail("undecodable input: expected UnicodeDecodeError and an unchanged filesystem", ("exc", "UnicodeDecodeError"), res)
         return fails
     if res != ("ok",):
+        if "title_unencodable" in script and res == ("exc", "UnicodeEncodeError"):
+            # saving an unencodable simfile may fail; what the filesystem looks like then is C06's business
+            return fails
         fail("mutate raised although the block exited normally", "saved", res)
         return fails
     want_type = "SSCSimfile" if ext == ".ssc" else "SMSimfile"
@@ -246,6 +249,7 @@ def explore_shard(acc, shard):
             sig, payload = reps[sig_idx]
             case = None
             scripts = [()] + [(e,) for e in MU.EDITS] + ([tuple(s) for n in range(2, maxlen + 1) for s in itertools.product(MU.EDITS, repeat=n)])
+            scripts += [("title_unencodable",), ("append_chart", "title_unencodable"), ("title_unencodable", "set_new")]
             for ext in (".sm", ".ssc"):
                 for with_chart in (False, True):
                     data = MU.file_bytes(ext, payload, with_chart, key_only=with_chart)
@@ -265,6 +269,8 @@ def explore_shard(acc, shard):
                                     acc.count("evaluations")
                                     if script or output or backup != "none" or not all(sig):
                                         acc.count("nontrivial")
+                                    if "title_unencodable" in script:
+                                        acc.outcome("edit adds a character the detected encoding lacks")
                                     if backup in ("input", "output"):
                                         acc.outcome("clashing backup name")
                                     enc = MU.expected_encoding(data, LISTS[ln] or MU.ENCODINGS)
@@ -309,6 +315,7 @@ def explore(run):
     run.assumptions = ["Python's codecs define what 'decodes' means", "values contain no bare carriage return", "MemoryFS text streams do no newline translation, native ones do (universal newlines)"]
     core.require(acc.outcomes["no tried encoding decodes (UnicodeDecodeError)"] > 0, "error clause not exercised")
     core.require(acc.outcomes["clashing backup name"] > 0, "no clashing backup name")
+    core.require(acc.outcomes["edit adds a character the detected encoding lacks"] > 0, "unencodable edit never tried")
     core.require(any(k.startswith("file read and written in cp") for k in acc.outcomes), "no non-UTF-8 file")
     return run.finish(
         states=acc.c["states"],
